@@ -58,6 +58,11 @@ def cases(draw):
                 # two constraints under one name (the AFM reader names constraints after their text, so a file that
                 # states a constraint twice yields this): a writer keyed on names must still leave the model alone
                 fm_["ctcs"][-1]["name"] = fm_["ctcs"][0]["name"]
+            if draw(st.integers(0, 3)) == 0:
+                # values a writer cannot express must make it raise or be written somehow - never be 'repaired' in place
+                fm_["root"]["attrs"].append({"name": "nf", "value": draw(st.sampled_from([
+                    [{"$float": "0.5"}, {"$float": "inf"}], {"k": {"$float": "nan"}}, {"$float": "-inf"},
+                    [[{"$float": "inf"}]], {"a": [1, {"$float": "nan"}]}]))})
             items.append({"writer": w, "model": fm_, "foreign": True})
     if False:
         items.append(None)
